@@ -322,55 +322,57 @@ def polygon_rules(rep, F, adt, module, tag, floor_writers, crates=("geo_types", 
 
 # ------------------------------------------------------------------------------------------------
 def close_rule(rep, F):
-    rep.rule("R18.3", "LineString::close: no-op when first == last, otherwise pushes a copy of element 0 (so first == last afterwards)")
-    fn = F.one(CLOSE_RE)
-    ex = Symex(F)
+    """R18.3: LineString::close on every coordinate sequence of length 0..4 over two concrete coordinates (31 line strings, comparisons between
+    the constants are decided): a closed or empty line string is left as it is, an open one gets a copy of its first coordinate appended - so
+    first == last afterwards, and nothing else changes.  (An earlier form of this rule looked for the atom `first() == last()` in the path
+    table and alarmed on an equivalent `match (first, last)`; the table decides the same clause on values.)"""
+    import itertools
+    rep.rule("R18.3", "LineString::close (every sequence of 0..4 coordinates over two concrete values): no-op when empty or first == last, otherwise a copy of element 0 is appended; nothing else changes")
     try:
-        paths = ex.run(fn)
-    except Unanalysable as e:
-        rep.bad("R18.3", "unanalysable", str(e), where=fn.loc())
+        fn = F.one(CLOSE_RE)
+    except KeyError as e:
+        rep.bad("R18.3", "anchor", str(e))
         return
-    rets = [p for p in paths if p.kind == "ret"]
+    GTc = "geo_types::geometry::coord::Coord"
+    A = ("adt", GTc, "Coord", (("const", 0), ("const", 0)))
+    B = ("adt", GTc, "Coord", (("const", 1), ("const", 5)))
+    LS = "geo_types::geometry::line_string::LineString"
+    n = 0
     seen_push = seen_noop = False
-    for p in rets:
-        effects = [e for e in p.trace if e[0] == "call" and e[3] is not None or e[0] == "store"]
-        atoms = [(t, v) for t, v in p.pc]
-        closed_atom = None
-        for t, v in atoms:
-            if t[0] == "cmp" and t[1] == "eq":
-                a, b = t[2], t[3]
-                names = sorted(x[1].split("::")[-1] for x in (a, b) if x[0] == "call")
-                if names == ["first", "last"]:
-                    closed_atom = v
-        if closed_atom is None:
-            rep.bad("R18.3", "atom", "close() does not decide on `first == last`: %s" % show_pc(p.pc)[:200], where=fn.loc())
-            continue
-        if closed_atom == 1:
-            if effects:
-                rep.bad("R18.3", "closed-branch-mutates", "already closed line string is modified: %s" % [short(e[1]) for e in effects], where=fn.loc())
+    for k in range(5):
+        for seq in itertools.product((A, B), repeat=k):
+            ls = ("adt", LS, "LineString", (("call", "vec!", (("array", tuple(seq)),)),))
+            ex = Symex(F, concrete_iters=True, loop_bound=8, inline_crates=("geo_types",), max_paths=200)
+            ex.fold_ground_eq = True
+            name = "".join("A" if c is A else "B" for c in seq) or "empty"
+            try:
+                ps = [p for p in ex.run(fn, args=[("arg", 1)], mem={("arg", 1): ls}) if p.kind != "cut"]
+            except Unanalysable as e:
+                rep.bad("R18.3", "unanalysable", "close() on the line string %s: %s" % (name, e), where=fn.loc())
+                return
+            if len(ps) != 1 or ps[0].kind != "ret" or ps[0].pc:
+                rep.bad("R18.3", "table", "close() on the concrete line string %s has %d paths (%s): its effect depends on more than the coordinates" % (
+                    name, len(ps), "; ".join("%s %s" % (p.kind, show_pc(p.pc)[:80]) for p in ps[:2])), where=fn.loc())
+                return
+            fin = ex.canon(ps[0].st, ps[0].st.mem.get(("S", ("arg", 1))))
+            arr = find_arrays(fin, [])
+            got = list(arr[0][1]) if arr else None
+            want = list(seq) if (not seq or seq[0] == seq[-1]) else list(seq) + [seq[0]]
+            if got != want:
+                rep.bad("R18.3", "table", "close() turns the line string %s into %s, expected %s" % (
+                    name, "".join("A" if c == A else "B" if c == B else "?" for c in (got or [])) if got is not None else "?", "".join("A" if c is A else "B" for c in want) or "empty"), where=fn.loc())
+                return
+            n += 1
+            if len(want) > len(seq):
+                seen_push = True
             else:
                 seen_noop = True
-                rep.ok("R18.3", "closed→no-op", sample=show_pc(p.pc))
-        else:
-            pushes = [e for e in effects if e[0] == "call" and re.search(r"Vec::<T, A>::push$", e[1])]
-            good = False
-            if len(pushes) == 1 and len(effects) == 1:
-                e = pushes[0]
-                vec, val = e[2][0], e[2][1]
-                # pushed value must be element 0 of the same vector
-                if val[0] == "index" and val[2] == ("const", 0) and vec[0] == "&" and val[1] == vec[1]:
-                    good = True
-            if good:
-                seen_push = True
-                rep.ok("R18.3", "open→push(self.0[0])", sample=show_pc(p.pc))
-            else:
-                rep.bad("R18.3", "open-branch", "open line string is not closed by pushing a copy of its first coordinate: effects %s" %
-                        [show(("call", e[1], e[2]))[:100] for e in effects if e[0] == "call"], where=fn.loc())
-    if not (seen_push and seen_noop):
-        rep.bad("R18.3", "table-incomplete", "close() lacks the %s branch" % ("push" if not seen_push else "no-op"), where=fn.loc())
+    if seen_push and seen_noop:
+        rep.ok("R18.3", "close-table[%d line strings]" % n)
+    else:
+        rep.bad("R18.3", "table-incomplete", "the catalogue lacks an open / a closed line string")
 
 
-# ------------------------------------------------------------------------------------------------
 def entails_le(pc, a, b):
     """Does the path condition entail a <= b (total order)?"""
     if a == b:
